@@ -150,8 +150,10 @@ def as_dict_harness(I, c):
             d.append((S("rel"), S("stylesheet")))
         return PyDict(d, False)
 
-    for kind in ("url", "dir"):
+    for kind in ("url", "dir", "none"):
         for ns, nc in ((0, 0), (1, 1), (2, 1), (1, 2)):
+            if kind == "none" and (ns, nc) not in ((1, 1), (2, 1)):
+                continue
             scripts = [item("src", i, i == 1) for i in range(ns)]
             sheets = [item("href", i, i == 0 and nc == 2) for i in range(nc)]
             head = SAdt("NodeList", I.fresh("NodeList", "head"), fresh=False, pyclass="TagList") if (ns + nc) % 2 else None
